@@ -25,6 +25,7 @@ func init() {
 func runC14(c *fw.Ctx) {
 	r141(c)
 	r143(c)
+	r144(c)
 }
 
 func r141(c *fw.Ctx) {
@@ -379,4 +380,57 @@ func r143(c *fw.Ctx) {
 		})
 		c.Check(ok, rule, "ZeroLit/delegates", fd.Pos(), "ZeroLit must push Zero of its argument")
 	}
+}
+
+// R14.4: when Zero unwraps a named (or alias) type to look at its structure, it must unwrap the requested
+// type itself. The underlying type of an instantiated generic has the type arguments substituted; the
+// underlying type of its origin still mentions the type parameters (`struct{first T}{}` is not Go outside
+// the generic declaration). In the Named/Alias arms the value the switch variable is replaced with is a
+// function of the case variable itself - no Origin(), no other type derived from it.
+func r144(c *fw.Ctx) {
+	const rule = "R14.4"
+	fd, p := needDecl(c, rule, "(*Package).Zero")
+	if fd == nil {
+		return
+	}
+	info := p.TypesInfo
+	n := 0
+	ast.Inspect(fd.Body, func(m ast.Node) bool {
+		ts, ok := m.(*ast.TypeSwitchStmt)
+		if !ok {
+			return true
+		}
+		for _, cl := range ts.Body.List {
+			cc := cl.(*ast.CaseClause)
+			if len(cc.List) != 1 {
+				continue
+			}
+			ct := info.TypeOf(cc.List[0])
+			if !(namedIs(ct, "go/types", "Named") || namedIs(ct, "go/types", "Alias")) {
+				continue
+			}
+			caseVar := info.Implicits[cc]
+			kind := "Named"
+			if namedIs(ct, "go/types", "Alias") {
+				kind = "Alias"
+			}
+			for _, st := range cc.Body {
+				as, ok := st.(*ast.AssignStmt)
+				if !ok || len(as.Rhs) != 1 {
+					continue
+				}
+				call, ok := unparen(as.Rhs[0]).(*ast.CallExpr)
+				if !ok || len(call.Args) == 0 {
+					continue
+				}
+				n++
+				arg := unparen(call.Args[len(call.Args)-1])
+				id, isID := arg.(*ast.Ident)
+				c.Check(isID && caseVar != nil && info.Uses[id] == caseVar, rule, "Zero/"+kind+"-arm-unwraps-the-requested-type", call.Pos(),
+					"the %s arm continues with %s; it must unwrap the requested type itself (the case variable): the underlying type of an instantiated generic's origin still mentions its type parameters", kind, exprString(call))
+			}
+		}
+		return true
+	})
+	c.Floor(rule, "unwrapping arms", n, 2)
 }
